@@ -136,7 +136,7 @@ vars  == <<hvars, tvars, nadv, last>>
 
 NoAct  == [k |-> 0, good |-> TRUE, sess |-> "s", alt |-> "none"]
 NoPend == [hc |-> NoCt, bc |-> NoCt, hl |-> 0, bl |-> 0]
-Obs(op, who, err) == [op |-> op, who |-> who, err |-> err, nn |-> 0, did |-> 0, dh |-> "",
+Obs(op, who, err) == [op |-> op, who |-> who, err |-> err, nn |-> 0, did |-> 0, dh |-> "", dsz |-> 0,
                       intact |-> FALSE, prefail |-> FALSE]
 
 Init ==
@@ -294,7 +294,7 @@ Flush(m, k) ==
 \* ReadMessage = ReadHeader ; ReadBody on the bytes P with receive cipher rc.
 \* io.ReadFull on too few bytes consumes them and fails without touching the cipher.
 ReadRes(P, rc) ==
-  LET fail(e, P2, c) == [err |-> e, pipe |-> P2, rc |-> c, did |-> 0, dir |-> "", dh |-> "", msg |-> <<>>] IN
+  LET fail(e, P2, c) == [err |-> e, pipe |-> P2, rc |-> c, did |-> 0, dir |-> "", dh |-> "", dsz |-> 0, msg |-> <<>>] IN
   IF Total(P) < HDR THEN fail("short", <<>>, rc)
   ELSE LET hp  == TakeN(P, HDR)
            P1  == DropN(P, HDR)
@@ -312,7 +312,7 @@ ReadRes(P, rc) ==
                              did |-> IF hp[1].part = "h" /\ bp[1].part = "b" /\ hp[1].id = bp[1].id
                                         /\ hp[1].dir = bp[1].dir
                                      THEN bp[1].id ELSE -1,
-                             dir |-> bp[1].dir, dh |-> bp[1].h, msg |-> hp \o bp]
+                             dir |-> bp[1].dir, dh |-> bp[1].h, dsz |-> bp[1].len - MAC, msg |-> hp \o bp]
 
 \* the head of the stream is exactly the untouched ciphertext of the next undelivered message
 IsCt(s, d, id, part) == s.dir = d /\ s.id = id /\ s.part = part /\ s.from = 0 /\ s.to = s.len /\ ~s.alt
@@ -333,7 +333,7 @@ ReadCommon(d) ==
               ELSE IF dl[d].bad = <<>> /\ res.did = dl[d].n + 1 /\ res.dir = d
                    THEN [dl EXCEPT ![d].n = @ + 1]
                    ELSE [dl EXCEPT ![d].bad = Append(@, res.did)]
-     /\ last' = [Obs("Read", r, res.err) EXCEPT !.did = res.did, !.dh = res.dh,
+     /\ last' = [Obs("Read", r, res.err) EXCEPT !.did = res.did, !.dh = res.dh, !.dsz = res.dsz,
                                                !.intact = HeadIntact(d), !.prefail = rfail[d]]
      /\ UNCHANGED <<snd, pend, nsent, fl, used, hw, reuse>>
      /\ MsgOnly
